@@ -56,7 +56,8 @@ func spaces(i int) canvas.ColorSpace {
 func genCase(t *rapid.T) Case {
 	c := Case{}
 	c.Size = [2]float64{float64(gen.Uniform(t, "w", 60, 140)) / 4, float64(gen.Uniform(t, "h", 60, 140)) / 4}
-	c.Res = []float64{2, 1, 4, 7.3, 3}[rapid.IntRange(0, 4).Draw(t, "res")]
+	// resolutions below one pixel per millimetre included (seed C14-7: a bound in millimetres compared with a size in pixels)
+	c.Res = []float64{2, 1, 4, 7.3, 3, 0.5, 0.3}[rapid.IntRange(0, 6).Draw(t, "res")]
 	c.CS = rapid.IntRange(0, 3).Draw(t, "cs")
 	c.Space = rapid.IntRange(0, 2).Draw(t, "space")
 	c.View = gen.MatSpec{1, 0, 0, 0, 1, 0}
